@@ -435,6 +435,16 @@ def ordering(eng, op, l, r, st, line=0):
     rsv = r if isinstance(r, SV) else SV(eng.lift(r, st))
     name = {ast.Lt: "__lt__", ast.LtE: "__le__", ast.Gt: "__gt__", ast.GtE: "__ge__"}[type(op)]
     refl = {"__lt__": "__gt__", "__le__": "__ge__", "__gt__": "__lt__", "__ge__": "__le__"}[name]
+    def _ctor(t):
+        t = z3.simplify(t)
+        return z3.is_app(t) and t.decl().name() in V.TAGS
+
+    if getattr(eng, "abstract_order", False) and lsv.hint is None and rsv.hint is None and name in ("__lt__", "__gt__") and not _ctor(lsv.t) and not _ctor(rsv.t):
+        # elements of an abstract ordered family: x < y is the uninterpreted relation py_lt,
+        # x > y its converse (assumption stated by the pack that enables this mode)
+        a, b = (lsv.t, rsv.t) if name == "__lt__" else (rsv.t, lsv.t)
+        yield st, SV(V.mk_bool(V.py_lt(a, b)))
+        return
     for st1, lt in _kind_cases(eng, lsv, st):
         for st2, rt in _kind_cases(eng, rsv, st1.copy()):
             a, b = lsv.t, rsv.t
